@@ -1,11 +1,37 @@
-"""CLI: python -m fvmc.run <ID> [--tier quick|thorough]"""
+"""CLI: python -m fvmc.run <ID> [--tier quick|thorough]      (cwd /verif)
+
+With VERIF_FAILFAST=1 (detection runs of tools/seed_verify.py and tools/mutation_run.py only) the check runs in a
+child process group that is stopped as soon as it prints its first VIOLATION line; the exit status is 1 then."""
 import argparse
 import importlib
 import os
+import signal
+import subprocess
 import sys
 
-from . import env  # noqa: F401  (sets up the import of the tree under test)
-from . import harness
+
+def _failfast(argv):
+    env = dict(os.environ)
+    env.pop("VERIF_FAILFAST", None)
+    env["VERIF_FAILFAST_INNER"] = "1"
+    env["VERIF_NOEVIDENCE"] = "1"
+    p = subprocess.Popen([sys.executable, "-m", "fvmc.run"] + argv, env=env, stdout=subprocess.PIPE, text=True,
+                         start_new_session=True)
+    hit = False
+    for line in p.stdout:
+        sys.stdout.write(line)
+        sys.stdout.flush()
+        if line.startswith(("VIOLATION", "HARNESS-ERROR")):
+            hit = True
+            break
+    if hit:
+        try:
+            os.killpg(p.pid, signal.SIGKILL)
+        except ProcessLookupError:
+            pass
+        p.wait()
+        return 1
+    return p.wait()
 
 
 def main(argv=None):
@@ -14,6 +40,10 @@ def main(argv=None):
     ap.add_argument("--tier", default=os.environ.get("VERIF_TIER", "quick"),
                     choices=["quick", "thorough"])
     a = ap.parse_args(argv)
+    if os.environ.get("VERIF_FAILFAST") and not os.environ.get("VERIF_FAILFAST_INNER"):
+        return _failfast(list(sys.argv[1:] if argv is None else argv))
+    from . import env  # noqa: F401  (sets up the import of the tree under test)
+    from . import harness
     mod = importlib.import_module("fvmc.checks.%s" % a.prop.lower())
     return harness.main(mod, a.tier)
 
